@@ -69,6 +69,10 @@ var Resources = []Res{
 	{"apiextensions.k8s.io", "v1", "CustomResourceDefinition", "customresourcedefinitions", false},
 	{"example.com", "v1", "Widget", "widgets", true},
 	{"example.com", "v1", "Gadget", "gadgets", true},
+	// second served versions of existing kinds (same storage: the store key has no version),
+	// for charts that move a resource to another API version of the same group
+	{"example.com", "v2", "Widget", "widgets", true},
+	{"autoscaling", "v1", "HorizontalPodAutoscaler", "horizontalpodautoscalers", true},
 }
 
 func FindKind(apiVersion, kind string) *Res {
@@ -555,15 +559,28 @@ func (s *Server) handle(req *http.Request, r *Req) (int, []byte, bool) {
 	case p == "/api":
 		return 200, mustJSON(map[string]any{"kind": "APIVersions", "versions": []string{"v1"}}), false
 	case p == "/apis":
-		seen := map[string]bool{}
-		var groups []any
+		var order []string
+		versions := map[string][]any{}
 		for _, r := range Resources {
-			if r.Group == "" || seen[r.Group] {
+			if r.Group == "" {
 				continue
 			}
-			seen[r.Group] = true
-			gv := map[string]any{"groupVersion": r.GV(), "version": r.Version}
-			groups = append(groups, map[string]any{"name": r.Group, "versions": []any{gv}, "preferredVersion": gv})
+			if _, ok := versions[r.Group]; !ok {
+				order = append(order, r.Group)
+			}
+			dup := false
+			for _, v := range versions[r.Group] {
+				if v.(map[string]any)["version"] == r.Version {
+					dup = true
+				}
+			}
+			if !dup {
+				versions[r.Group] = append(versions[r.Group], map[string]any{"groupVersion": r.GV(), "version": r.Version})
+			}
+		}
+		var groups []any
+		for _, g := range order {
+			groups = append(groups, map[string]any{"name": g, "versions": versions[g], "preferredVersion": versions[g][0]})
 		}
 		return 200, mustJSON(map[string]any{"kind": "APIGroupList", "apiVersion": "v1", "groups": groups}), false
 	case p == "/openapi/v3":
@@ -611,6 +628,20 @@ func (s *Server) handle(req *http.Request, r *Req) (int, []byte, bool) {
 	}
 	code, out := s.apply(req, r)
 	return code, mustJSON(out), false
+}
+
+// asVersion returns o with the apiVersion the request asked for (a shallow copy when it differs):
+// all served versions of a kind share one stored object, as after conversion on a real server.
+func asVersion(o map[string]any, apiVersion string) map[string]any {
+	if o["apiVersion"] == apiVersion {
+		return o
+	}
+	c := make(map[string]any, len(o))
+	for k, v := range o {
+		c[k] = v
+	}
+	c["apiVersion"] = apiVersion
+	return c
 }
 
 // ownerOf renders the helm ownership metadata of an object: managed-by|release-name|release-namespace.
@@ -699,7 +730,7 @@ func (s *Server) apply(req *http.Request, r *Req) (int, any) {
 					}
 				}
 				if sel.Matches(lb) {
-					items = append(items, o)
+					items = append(items, asVersion(o, apiVersion))
 				}
 			}
 			return 200, map[string]any{"kind": res.Kind + "List", "apiVersion": apiVersion, "metadata": map[string]any{"resourceVersion": fmt.Sprint(s.rv)}, "items": items}
@@ -708,7 +739,7 @@ func (s *Server) apply(req *http.Request, r *Req) (int, any) {
 		if !ok {
 			return notFound(r.Name)
 		}
-		return 200, o
+		return 200, asVersion(o, apiVersion)
 	case "POST":
 		var o map[string]any
 		if err := json.Unmarshal(r.Body, &o); err != nil {
